@@ -196,12 +196,19 @@ def _abstract_extras():
     ]
 
 
-def _mk3d(name, frame, label, x=0.0, y=0.0, score=0.5, size=(1.0, 1.0, 1.0)):
+def _conf(name):
+    """estimates carry increasing confidences (e0 < e1 < ...): any confidence-driven reordering of a caller's list shows"""
+    return 0.3 + 0.15 * int(name[1:]) if name[0] == "e" and name[1:].isdigit() else 0.5
+
+
+def _mk3d(name, frame, label, x=0.0, y=0.0, score=None, size=(1.0, 1.0, 1.0)):
+    score = _conf(name) if score is None else score
     return DynamicObject(0, frame, (x, y, 0.0), build.mkrot(), Shape(ShapeType.BOUNDING_BOX, size), None, score,
                          Label(label, label.value), uuid=name)
 
 
-def _mk2d(name, frame, label, roi, score=0.5):
+def _mk2d(name, frame, label, roi, score=None):
+    score = _conf(name) if score is None else score
     return DynamicObject2D(0, frame, score, Label(label, label.value), roi=roi, uuid=name)
 
 
